@@ -16,6 +16,14 @@ def f1(x):
 
 class Oops(Exception):
     pass
+
+def h1(x):
+    q = x + 1
+    return q
+
+def h0(x):
+    p = x * 2
+    return h1(p)
 '''
 VARS = ["x", "a", "b", "c", "#value"]
 BODY = [[0, 1, 2, 3, 4], [0, 1, 2, 4]]
@@ -149,6 +157,37 @@ class Run:
                 out = "exception:%s:%s" % (type(e).__name__, e)
         elif kind == "attach":
             self.attach(op["p"])
+        elif kind == "storm":
+            # outside the model: a call (of other functions) under an overlay with a nested selector and a total
+            # handler that raises when the call ends — the call is left by that exception, then the with-block;
+            # the handler context must be exactly what it was
+            from ptera.overlay import BaseOverlay, autotool, HandlerCollection
+            from ptera.interpret import Immediate, Total
+            from ptera.selector import select
+            env = self.uni.mod.__dict__
+
+            def boom(args):
+                raise self.uni.mod.Oops("handler")
+            seen = []
+            s1, s2 = select("h0 > h1 > q", env=env), select("h0(p)", env=env)
+
+            def pairs():
+                cur = HandlerCollection.current.get()
+                return [] if cur is None else [(id(a), id(b)) for a, b in cur.handler_pairs]
+            before_pairs = pairs()
+            autotool(s1)
+            autotool(s2)
+            raised = False
+            try:
+                try:
+                    with BaseOverlay(Immediate(s1, trigger=lambda args: seen.append(1)), Total(s2, close=boom)):
+                        self.uni.mod.h0(op.get("x", 1))
+                except self.uni.mod.Oops:
+                    raised = True
+            finally:
+                autotool(s2, undo=True)
+                autotool(s1, undo=True)
+            out = {"raised": raised, "seen": len(seen), "context_same": pairs() == before_pairs}
         elif kind == "call":
             ret = self.uni.funs[op["f"]](op.get("x", 2))
             want = [lambda x: ((x + 1) * 2) - x, lambda x: x * 3 + 7][op["f"]](op.get("x", 2))
